@@ -294,6 +294,8 @@ def scenarios(ctx):
     for sc_ in scs:
         if sc_["kind"] in ("rand", "gen") and rng.random() < 0.3:
             sc_["only_indels"] = True
+        elif sc_["kind"] in ("rand", "gen") and rng.random() < 0.25 and not any(st.get("nalt", 1) == 2 for ch in sc_["chroms"] for st in ch["sites"]):
+            sc_["nomav"] = True
     if not no_hazard:
         bundle(hazard if not q else hazard[:40], "hazard:prephased_uncovered", 8)
     ctx.notes["scenario_kinds"] = {k: sum(1 for s in scs if s["kind"] == k) for k in sorted({s["kind"] for s in scs})}
@@ -456,8 +458,27 @@ def drive(sc):
         # 3. haplotagphase
         try:
             wpath = os.path.join(d, "w.vcf")
-            run_haplotagphase(variant_file=u, alignment_file=tagged, reference=fasta, output=wpath,
-                              only_indels=bool(sc.get("only_indels")))
+            uin = u
+            if sc.get("nomav"):
+                # --no-mav on a call set in which a multi-ALT record (0/0 or 1/2, unphased) sits directly in front of a bi-allelic
+                # record at the same position: reader and writer must agree that the multi-ALT record is not a variant of the run
+                import gzip
+                with gzip.open(u, "rt") as fh:
+                    lines = fh.read().splitlines()
+                out_l = []
+                for x in lines:
+                    if x and not x.startswith("#"):
+                        f = x.split("\t")
+                        if "," not in f[4] and len(f[3]) == 1 and rng.random() < 0.5:
+                            others = [b_ for b_ in "ACGT" if b_ != f[3] and b_ != f[4][0]]
+                            dec = f[:3] + [f[3], ",".join(others[:2])] + f[5:8] + ["GT:PS"] + [rng.choice(["0/0:.", "1/2:."]) for _ in f[9:]]
+                            out_l.append("\t".join(dec))
+                    out_l.append(x)
+                with open(os.path.join(d, "u2.vcf"), "w") as fh:
+                    fh.write("\n".join(out_l) + "\n")
+                uin = pysam.tabix_index(os.path.join(d, "u2.vcf"), preset="vcf", force=True)
+            run_haplotagphase(variant_file=uin, alignment_file=tagged, reference=fasta, output=wpath,
+                              only_indels=bool(sc.get("only_indels")), mav=not sc.get("nomav"))
             Wp = _project_vcf(wpath, nsmp, site_index, intern)
             events.append({"ev": "HaplotagPhase", "w": Wp, "exc": ""})
         except Exception as e:
